@@ -371,6 +371,18 @@ STD_BYTE_CLASSES = {
 }
 
 
+_BYTE_FN_SETS = {}
+
+
+def strip_generics_local(p):
+    import re as _re
+    prev = None
+    while prev != p:
+        prev = p
+        p = _re.sub(r"::<[^<>]*>", "", p)
+    return p
+
+
 def byte_predicate_set(F, body, isws=None):
     """Set of bytes for which a loop-free closure `|(_, &b)| ..` / `|&b| ..` / `|b| ..` over ONE byte returns true, by
     evaluating its symbolic paths for each of the 256 values.  The byte is whatever place rooted at the closure's last
@@ -427,6 +439,21 @@ def byte_predicate_set(F, body, isws=None):
             for k, vs in std.items():
                 if name_is(t[2], k):
                     return x in vs
+            # a crate-local predicate over one byte (e.g. the closure's test moved into a named fn)
+            if "quick_xml::" in t[2] and len(t[3]) == 1:
+                cb = F.body(strip_generics_local(t[2]).split("quick_xml::", 1)[-1])
+                if cb is not None and cb.argc == 1:
+                    key = cb.path
+                    if key not in _BYTE_FN_SETS:
+                        try:
+                            _BYTE_FN_SETS[key] = valueset(cb)
+                        except Exception:
+                            _BYTE_FN_SETS[key] = None
+                        if _BYTE_FN_SETS[key] is None or True:
+                            inner = byte_predicate_set(F, cb, isws) if _BYTE_FN_SETS[key] is None else _BYTE_FN_SETS[key]
+                            _BYTE_FN_SETS[key] = inner
+                    if _BYTE_FN_SETS[key] is not None:
+                        return x in _BYTE_FN_SETS[key]
         raise Unknown
 
     out = set()
